@@ -570,7 +570,8 @@ macro_rules! api_op {
             "skip" => {
                 let scene = $t.u64();
                 let n = $t.usize();
-                $s.skip_epochs_for_scene(scene, n);
+                // scene 0 has a scene-less convenience API: exercised for odd n (content-based, so replays agree)
+                if scene == 0 && n % 2 == 1 { $s.skip_epochs(n); } else { $s.skip_epochs_for_scene(scene, n); }
                 "OK".to_string()
             }
             "wasted" => {
@@ -580,7 +581,13 @@ macro_rules! api_op {
             }
             "idle" => {
                 let scene = $t.u64();
-                let mut ids: Vec<usize> = $s.idle_tracks_with_scene(scene).iter().map(|r| r.id as usize).collect();
+                let mut ids: Vec<usize> = if scene == 0 {
+                    // both forms of the call for scene 0 must agree
+                    let a: Vec<usize> = $s.idle_tracks().iter().map(|r| r.id as usize).collect();
+                    let mut b: Vec<usize> = $s.idle_tracks_with_scene(0).iter().map(|r| r.id as usize).collect();
+                    let mut a2 = a.clone(); a2.sort(); b.sort();
+                    if a2 != b { vec![usize::MAX] } else { a }
+                } else { $s.idle_tracks_with_scene(scene).iter().map(|r| r.id as usize).collect() };
                 ids.sort();
                 format!("I {}", nat_list(&ids))
             }
@@ -592,7 +599,12 @@ macro_rules! api_op {
                 $s.set_auto_waste($t.usize());
                 "OK".into()
             }
-            "epoch" => format!("E {}", $s.current_epoch_with_scene($t.u64())),
+            "epoch" => {
+                let scene = $t.u64();
+                let e = $s.current_epoch_with_scene(scene);
+                // scene 0: the scene-less form must agree
+                if scene == 0 && $s.current_epoch() != e { format!("E {}", usize::MAX) } else { format!("E {}", e) }
+            }
             x => format!("UNKNOWN-OP {x}"),
         };
         format!("{}{}", res, dump_store!($c, $s, $dump))
@@ -718,7 +730,8 @@ pub fn exec(ctx: &mut Ctx, t: &mut Toks) -> String {
                     let (scene, dets) = &scenes[0];
                     out.push_str(&sort_table!(c, s, *scene, dets));
                     let input: Vec<(Universal2DBox, Option<i64>)> = dets.iter().map(|d| (d.bbox.clone(), d.custom)).collect();
-                    let recs = s.predict_with_scene(*scene, &input);
+                    // scene 0 with an odd number of detections goes through the scene-less convenience call
+                    let recs = if *scene == 0 && dets.len() % 2 == 1 { s.predict(&input) } else { s.predict_with_scene(*scene, &input) };
                     log_records(c, *scene, &recs);
                     let preds = preds_of!(c, s, recs);
                     out.push_str(&format!(" S {} {}", scene, show_records(c, dets, &recs, &preds)));
@@ -728,7 +741,7 @@ pub fn exec(ctx: &mut Ctx, t: &mut Toks) -> String {
                     let (scene, dets) = &scenes[0];
                     out.push_str(&vis_table!(c, s, *scene, dets));
                     let input: Vec<VisualSortObservation> = dets.iter().map(vobs).collect();
-                    let recs = s.predict_with_scene(*scene, &input);
+                    let recs = if *scene == 0 && dets.len() % 2 == 1 { s.predict(&input) } else { s.predict_with_scene(*scene, &input) };
                     log_records(c, *scene, &recs);
                     let preds = preds_of!(c, s, recs);
                     out.push_str(&format!(" S {} {}", scene, show_records(c, dets, &recs, &preds)));
